@@ -82,6 +82,9 @@ func c07Majority(n int, outcomes int) {
 	threshold := vnd.IntRange("threshold", 1, n)
 	providers := map[string]eth2client.AttestationDataProvider{}
 	provs := make([]*c07Provider, n)
+	// the second value differs from the first in its head, or shares the head and differs in its source
+	// checkpoint (nodes that disagree on justification around an epoch boundary)
+	bSharesHead := vnd.Bool("second-value.shares-head")
 	for i := 0; i < n; i++ {
 		p := &c07Provider{name: []string{"node-a", "node-b", "node-c"}[i]}
 		p.latency = time.Duration(vnd.I64("latency"))
@@ -90,7 +93,11 @@ func c07Majority(n int, outcomes int) {
 		p.data = &phase0.AttestationData{Slot: c07Slot, BeaconBlockRoot: phase0.Root{1}, Source: &phase0.Checkpoint{Epoch: 8}, Target: &phase0.Checkpoint{Epoch: 10}}
 		switch p.outcome {
 		case mValidB:
-			p.data.BeaconBlockRoot = phase0.Root{2}
+			if bSharesHead {
+				p.data.Source.Epoch = 7
+			} else {
+				p.data.BeaconBlockRoot = phase0.Root{2}
+			}
 		case mWrongEpoch:
 			p.data.Target.Epoch = 9
 		}
@@ -130,8 +137,11 @@ func c07Majority(n int, outcomes int) {
 		return
 	}
 	vnd.Cover("C07.majority.answer")
-	isA := resp.Data.BeaconBlockRoot == phase0.Root{1}
-	isB := resp.Data.BeaconBlockRoot == phase0.Root{2}
+	isA := resp.Data.BeaconBlockRoot == phase0.Root{1} && resp.Data.Source.Epoch == 8
+	isB := resp.Data.BeaconBlockRoot == phase0.Root{2} && resp.Data.Source.Epoch == 8
+	if bSharesHead {
+		isB = resp.Data.BeaconBlockRoot == phase0.Root{1} && resp.Data.Source.Epoch == 7
+	}
 	vnd.Assert((isA || isB) && resp.Data.Target.Epoch == 10, "C07.majority.answer-is-a-valid-reported-value")
 	aBy, bBy := count(mValidA, elapsed, false), count(mValidB, elapsed, false)
 	if isA {
